@@ -106,6 +106,9 @@ def gen_plan(seed, tier):
   else:
     cfg["script"] = _script(r, r.randint(0, 10), fatal_ok=r.chance(0.3))
     cfg["recv_mode"] = "all"
+    # the owner asks for an orderly shutdown of the sending side after some
+    # message (what is queued by then must still go out, then SHUT_WR)
+    cfg["shutdown_after"] = r.pick([None, None, None, 0, 1, 2, 4])
     for i in range(r.randint(2, 12)):
       steps.append({"n": r.pick([1, 8, 40, 200, 1500, 8192, 9000]),
                     "fast": r.chance(0.4),
@@ -183,9 +186,22 @@ def _drive_sw(sim, plan, known, hit):
   a.tx_script = [tuple(x) for x in cfg.get("script", [])]
   has_fatal = any(x[0] == "fatal" for x in a.tx_script)
   queued = b""
+  shut = False
+  shut_at = []      # bytes accepted when the worker called shutdown(SHUT_WR)
+  orig_shutdown = a.shutdown
+
+  def rec_shutdown(how):
+    if how in (1, 2):
+      shut_at.append(len(a.accepted))
+    return orig_shutdown(how)
+  a.shutdown = rec_shutdown
 
   def check(ctx):
     acc = bytes(a.accepted)
+    if shut_at and shut_at[0] != len(queued):
+      raise Violation("sw/shutdown-before-flush", "%s: the sending side was "
+                      "shut down (SHUT_WR) after %d of the %d queued bytes"
+                      % (ctx, shut_at[0], len(queued)))
     if not queued.startswith(acc):
       i = next((k for k in range(min(len(acc), len(queued)))
                 if acc[k] != queued[k]), min(len(acc), len(queued)))
@@ -211,6 +227,12 @@ def _drive_sw(sim, plan, known, hit):
                       % ("send_fast" if st.get("fast") else "send", len(data),
                          type(e).__name__, e))
     check("after queueing message %d" % i)
+    if cfg.get("shutdown_after") == i and not has_fatal:
+      worker.shutdown()
+      sim.probes["shutdown_requested_with_backlog"] += int(
+        len(worker.send_buf) > 0)
+      shut = True
+      break
     if st.get("after") == "settle":
       sim.settle()
     elif st.get("after") == "advance":
